@@ -365,6 +365,73 @@ theorem react_exported_step_limit {F : Facts} (hF : genFacts = some F) (cfg : Co
   rw [h]
   exact react_step_limit hF cfg
 
+/-! ## tool calls streamed as deltas, interleaved across indexes -/
+
+/-- **toolcalls_assembled_per_index.** What the assistant message reconstructed from a streamed
+    reply carries as tool calls (`r.full.calls`, the list the tools node executes in order and
+    `transcript` answers call by call), for every reply = every way of cutting the tool calls
+    into deltas and distributing them over chunks: the deltas without `Index` are calls of
+    their own, in arrival order; for every index `i` there is exactly the one call the deltas
+    filed under `i` merge into (first non-empty id and name, arguments concatenated in arrival
+    order — wherever those deltas sit in the stream), none if no delta carries `i`; the
+    index-less calls come first, the others follow by strictly ascending index (`Canonical`). -/
+theorem toolcalls_assembled_per_index (r : Reply) :
+    deltasOf none r.full.calls = deltasOf none (r.chunks.flatMap (·.calls)) ∧
+    (∀ i, deltasOf (some i) r.full.calls = (groupAt (r.chunks.flatMap (·.calls)) i).toList) ∧
+    Canonical r.full.calls :=
+  ⟨assemble_unindexed _, assemble_indexed _, assemble_sorted _⟩
+
+/-- **toolcalls_interleaving_invariant.** Two delta streams in which every key (every `Index`,
+    and "no `Index`") has the same deltas in the same order assemble to the same tool calls:
+    the assembled message does not depend on how the deltas of different calls are interleaved
+    (clause "streamed in arbitrary chunks"). For all streams, by `assemble_ext`. -/
+theorem toolcalls_interleaving_invariant (ds ds' : List ToolCall)
+    (h : ∀ k, deltasOf k ds = deltasOf k ds') : assemble ds = assemble ds' :=
+  assemble_congr ds ds' h
+
+/-- **toolcalls_interleave_all.** The delta lists `gs` of any number of parallel tool calls
+    (pairwise no common key, e.g. one list per `Index`), interleaved in the stream in any way
+    that keeps every list in order (`InterleaveAll`, an inductive relation; proof by induction
+    on it), assemble to the same tool calls as the lists streamed back to back. -/
+theorem toolcalls_interleave_all (gs : List (List ToolCall)) (l : List ToolCall)
+    (h : InterleaveAll gs l) (hd : gs.Pairwise KeyDisjoint) : assemble l = assemble gs.flatten :=
+  assemble_interleave_all h hd
+
+/-- **toolcalls_assembled_fixpoint.** Assembling an assembled list changes nothing: the whole
+    message `Generate` returns is the message `Stream` reconstructs, also after another pass
+    through `ConcatMessages`. -/
+theorem toolcalls_assembled_fixpoint (ds : List ToolCall) : assemble (assemble ds) = assemble ds :=
+  assemble_idem ds
+
+/-- **toolcalls_canonical_unchanged.** Tool calls that already have the canonical form
+    (index-less calls first, then at most one call per index, ascending — the form of the calls
+    of one well-formed chunk) are their own assembly; so a reply streamed as a single such
+    chunk, which compose hands on as it is without `ConcatMessages`, is the assembled message. -/
+theorem toolcalls_canonical_unchanged (c : Chunk) (h : Canonical c.calls) :
+    concat [c] = { role := .assistant, content := c.content, calls := c.calls, callId := "" } := by
+  simp [concat, String.join, assemble_canonical h]
+
+/-- **react_interleaving_invariant.** Two scripts whose replies are, one by one, re-interleavings
+    of each other (`Reply.Reinterleaved`: chunk by chunk the same content and the same "carries
+    deltas or not", per key the same deltas in the same order) give the same run — model
+    inputs, node executions with the tool calls started, result — in both modes, for every
+    configuration: the agent loop sees only the assembled message. -/
+theorem react_interleaving_invariant {F : Facts} (hF : genFacts = some F) (cfg : Config)
+    (mode : Mode) (orig : List Msg) (s1 s2 : List Reply)
+    (h : Pointwise Reply.Reinterleaved s1 s2) :
+    run F cfg mode orig s1 = run F cfg mode orig s2 := by
+  rw [facts_eq hF, run_eq, run_eq]
+  cases hl : stepLimit Expected.C18.facts cfg with
+  | none => rfl
+  | some l =>
+    simp only
+    have hs : Pointwise (fun r1 r2 => r1.full = r2.full ∧
+        goes Expected.C18.facts cfg mode r1 = goes Expected.C18.facts cfg mode r2) s1 s2 := by
+      induction h with
+      | nil => exact .nil
+      | cons hr _ ih => exact .cons ⟨full_reinterleaved hr, goes_reinterleaved _ cfg mode hr⟩ ih
+    rw [rounds_rel cfg _ hs l orig]
+
 /-! ## the negation witness, non-vacuity -/
 
 /-- **Known finding (DESIGN §5, known_findings/C18.json).** Without the hypothesis the
@@ -375,7 +442,7 @@ theorem generate_ne_stream_witness :
     (run Expected.C18.facts (wCfg [] 0) .generate wOrig [wLate, wDone]).result
       = .ok ⟨.assistant, "done", [], ""⟩ ∧
     (run Expected.C18.facts (wCfg [] 0) .stream wOrig [wLate, wDone]).result
-      = .ok ⟨.assistant, "thinking", [⟨"c1", "t", "x"⟩], ""⟩ ∧
+      = .ok ⟨.assistant, "thinking", [⟨"c1", "t", "x", none⟩], ""⟩ ∧
     ¬ ToolCallsInFirstNonEmptyChunk wLate := by
   refine ⟨by decide, by decide, ?_⟩
   rintro (h | ⟨pre, c, post, hch, hpre, hc⟩)
@@ -392,38 +459,38 @@ theorem generate_ne_stream_witness :
 
 /-- the hypothesis is satisfiable by replies with tool calls and several chunks, and then
     both modes run the tool and agree -/
-example : ToolCallsInFirstNonEmptyChunk ⟨[⟨"", [], []⟩, ⟨"a", [⟨"c1", "t", "x"⟩], []⟩, ⟨"b", [], []⟩]⟩ :=
-  .inr ⟨[⟨"", [], []⟩], ⟨"a", [⟨"c1", "t", "x"⟩], []⟩, [⟨"b", [], []⟩], rfl, by simp [Chunk.blank], by simp⟩
+example : ToolCallsInFirstNonEmptyChunk ⟨[⟨"", [], []⟩, ⟨"a", [⟨"c1", "t", "x", none⟩], []⟩, ⟨"b", [], []⟩]⟩ :=
+  .inr ⟨[⟨"", [], []⟩], ⟨"a", [⟨"c1", "t", "x", none⟩], []⟩, [⟨"b", [], []⟩], rfl, by simp [Chunk.blank], by simp⟩
 
 example : run Expected.C18.facts (wCfg [] 0) .stream wOrig
-            [⟨[⟨"", [], []⟩, ⟨"a", [⟨"c1", "t", "x"⟩], []⟩, ⟨"b", [], []⟩]⟩, wDone]
-    = { seen := [wOrig, wOrig ++ [⟨.assistant, "ab", [⟨"c1", "t", "x"⟩], ""⟩, ⟨.tool, "t(x)", [], "c1"⟩]],
-        evs := [.chat, .tools [⟨"c1", "t", "x"⟩], .chat],
+            [⟨[⟨"", [], []⟩, ⟨"a", [⟨"c1", "t", "x", none⟩], []⟩, ⟨"b", [], []⟩]⟩, wDone]
+    = { seen := [wOrig, wOrig ++ [⟨.assistant, "ab", [⟨"c1", "t", "x", none⟩], ""⟩, ⟨.tool, "t(x)", [], "c1"⟩]],
+        evs := [.chat, .tools [⟨"c1", "t", "x", none⟩], .chat],
         result := .ok ⟨.assistant, "done", [], ""⟩ } := by decide
 
 /-- return-directly: three node executions, the tool's message is the answer -/
-example : run Expected.C18.facts (wCfg ["t"] 0) .generate wOrig [⟨[⟨"", [⟨"c1", "t", "x"⟩], []⟩]⟩, wDone]
-    = { seen := [wOrig], evs := [.chat, .tools [⟨"c1", "t", "x"⟩], .direct],
+example : run Expected.C18.facts (wCfg ["t"] 0) .generate wOrig [⟨[⟨"", [⟨"c1", "t", "x", none⟩], []⟩]⟩, wDone]
+    = { seen := [wOrig], evs := [.chat, .tools [⟨"c1", "t", "x", none⟩], .direct],
         result := .ok ⟨.tool, "t(x)", [], "c1"⟩ } := by decide
 
 /-- the step limit bites: a model that always calls the tool, MaxStep 4 -/
 example : (run Expected.C18.facts (wCfg [] 4) .generate wOrig
-            [⟨[⟨"", [⟨"c1", "t", "x"⟩], []⟩]⟩, ⟨[⟨"", [⟨"c2", "t", "y"⟩], []⟩]⟩, ⟨[⟨"", [⟨"c3", "t", "z"⟩], []⟩]⟩]).result
+            [⟨[⟨"", [⟨"c1", "t", "x", none⟩], []⟩]⟩, ⟨[⟨"", [⟨"c2", "t", "y", none⟩], []⟩]⟩, ⟨[⟨"", [⟨"c3", "t", "z", none⟩], []⟩]⟩]).result
     = .error .maxSteps := by decide
 
 /-- a changed fact changes the model: if the tools pre-handler did not append, the second
     model call would not see the assistant message -/
 example : (run { Expected.C18.facts with toolsPreAppends := false } (wCfg [] 0) .generate wOrig
-            [⟨[⟨"", [⟨"c1", "t", "x"⟩], []⟩]⟩, wDone]).seen
+            [⟨[⟨"", [⟨"c1", "t", "x", none⟩], []⟩]⟩, wDone]).seen
     = [wOrig, wOrig ++ [⟨.tool, "t(x)", [], "c1"⟩]] := by decide
 
 /-- a head chunk carrying only metadata is skipped: Stream runs the tool like Generate -/
 example : ToolCallsInFirstNonEmptyChunk wMetaHead :=
-  .inr ⟨[⟨"", [], ["extra:request_id"]⟩], ⟨"", [⟨"c1", "t", "x"⟩], []⟩, [], rfl, by simp [Chunk.blank], by simp⟩
+  .inr ⟨[⟨"", [], ["extra:request_id"]⟩], ⟨"", [⟨"c1", "t", "x", none⟩], []⟩, [], rfl, by simp [Chunk.blank], by simp⟩
 
 example : run Expected.C18.facts (wCfg [] 0) .stream wOrig [wMetaHead, wDone]
-    = { seen := [wOrig, wOrig ++ [⟨.assistant, "", [⟨"c1", "t", "x"⟩], ""⟩, ⟨.tool, "t(x)", [], "c1"⟩]],
-        evs := [.chat, .tools [⟨"c1", "t", "x"⟩], .chat],
+    = { seen := [wOrig, wOrig ++ [⟨.assistant, "", [⟨"c1", "t", "x", none⟩], ""⟩, ⟨.tool, "t(x)", [], "c1"⟩]],
+        evs := [.chat, .tools [⟨"c1", "t", "x", none⟩], .chat],
         result := .ok ⟨.assistant, "done", [], ""⟩ } := by decide
 
 /-- a changed fact changes the model: were `MaxStep` not among the exported compile options,
@@ -432,10 +499,43 @@ example : stepLimit ({ Expected.C18.facts with maxStepExported := false }).expor
     stepLimit Expected.C18.facts.exported (wCfg [] 4) = some 4 := by decide
 
 example : (runAt { Expected.C18.facts with maxStepExported := false } .exported (wCfg [] 4) .generate wOrig
-            [⟨[⟨"", [⟨"c1", "t", "x"⟩], []⟩]⟩, ⟨[⟨"", [⟨"c2", "t", "y"⟩], []⟩]⟩, wDone]).result
+            [⟨[⟨"", [⟨"c1", "t", "x", none⟩], []⟩]⟩, ⟨[⟨"", [⟨"c2", "t", "y", none⟩], []⟩]⟩, wDone]).result
       = .ok ⟨.assistant, "done", [], ""⟩ ∧
     (runAt Expected.C18.facts .exported (wCfg [] 4) .generate wOrig
-            [⟨[⟨"", [⟨"c1", "t", "x"⟩], []⟩]⟩, ⟨[⟨"", [⟨"c2", "t", "y"⟩], []⟩]⟩, wDone]).result
+            [⟨[⟨"", [⟨"c1", "t", "x", none⟩], []⟩]⟩, ⟨[⟨"", [⟨"c2", "t", "y", none⟩], []⟩]⟩, wDone]).result
       = .error .maxSteps := by decide
+
+/-- two parallel tool calls streamed as deltas, one delta of each call per chunk (heads with id
+    and name, then two argument fragments each): `Stream` reconstructs the two calls, runs both
+    tools with the model's arguments, in order, and feeds both results back — like `Generate` -/
+example : run Expected.C18.facts (wCfg [] 0) .stream wOrig [wInterleaved, wDone]
+    = { seen := [wOrig, wOrig ++ [⟨.assistant, "", [⟨"c0", "t", "{\"a\":1}", some 0⟩, ⟨"c1", "t", "{\"b\":2}", some 1⟩], ""⟩,
+                                  ⟨.tool, "t({\"a\":1})", [], "c0"⟩, ⟨.tool, "t({\"b\":2})", [], "c1"⟩]],
+        evs := [.chat, .tools [⟨"c0", "t", "{\"a\":1}", some 0⟩, ⟨"c1", "t", "{\"b\":2}", some 1⟩], .chat],
+        result := .ok ⟨.assistant, "done", [], ""⟩ } ∧
+    run Expected.C18.facts (wCfg [] 0) .generate wOrig [wInterleaved, wDone]
+      = run Expected.C18.facts (wCfg [] 0) .stream wOrig [wInterleaved, wDone] := by decide
+
+/-- the same deltas with each call's deltas back to back: a re-interleaving, same whole message -/
+example : wInterleaved.Reinterleaved wContiguous ∧ wInterleaved.full = wContiguous.full := by
+  refine ⟨⟨?_, ?_⟩, by decide⟩
+  · exact .cons ⟨rfl, rfl⟩ (.cons ⟨rfl, rfl⟩ (.cons ⟨rfl, rfl⟩ .nil))
+  · intro k
+    by_cases h0 : k = some 0
+    · subst h0; decide
+    · by_cases h1 : k = some 1
+      · subst h1; decide
+      · have : ∀ ds : List ToolCall, (∀ d ∈ ds, d.index = some 0 ∨ d.index = some 1) → deltasOf k ds = [] := by
+          intro ds hds
+          rw [deltasOf_eq_nil_iff]
+          intro d hd hk
+          rcases hds d hd with h | h
+          · exact h0 (hk.symm.trans h)
+          · exact h1 (hk.symm.trans h)
+        rw [this _ (by decide), this _ (by decide)]
+
+/-- merging per contiguous run instead of per index would give six broken calls here: the
+    assembled list is not the concatenation of the deltas -/
+example : wInterleaved.full.calls.length = 2 ∧ (wInterleaved.chunks.flatMap (·.calls)).length = 6 := by decide
 
 end EinoV.C18
